@@ -42,6 +42,11 @@ def validate_alloc(c, path, label, what):
     reaches the allocator that owns the block, with the allocated size; both modules balanced at every quiescent marker)"""
     if not os.path.exists(path):
         raise lib.ToolError("no allocator trace written: " + path)
+    # only whole lines are events (a log that was cut short by a crash elsewhere must not become a tool error)
+    raw = open(path).read()
+    if raw and not raw.endswith("\n"):
+        raw = raw[:raw.rfind("\n") + 1]
+        open(path, "w").write(raw)
     nev = sum(1 for _ in open(path))
     r = lib.run_tlc("Trace_Modules", "Trace_Modules.cfg", name="alloc_%s" % os.path.basename(path), workers=1, env={"TRACE": path}, depth_first=True, timeout=1200)
     if r.violation or r.distinct < nev + 1:
@@ -66,6 +71,9 @@ def obj_replay(c, rt, plugin, jsonl, nslots, label, parts=4):
             raise lib.ToolError("adapter reported a tool error / timed out (rc=%s)" % rc)
         if rc != 0 or summ is None:
             c.violation("using plugin-created objects crashed the host (rc=%s) %s" % (rc, label), {"file": p, "label": label})
+            # the allocator log of a crashed child ends wherever it died (possibly in the middle of a line): not a trace
+            if os.path.exists(p + ".alloc.ndjson"):
+                os.remove(p + ".alloc.ndjson")
             continue
         tb += summ["behaviours"]
         ts += summ["steps"]
